@@ -26,7 +26,7 @@ out = ["## 10. Seeded changes and which checks catch them", "",
 for r in rows:
     out.append("| " + " | ".join(x.replace("|", "/").replace("\n", " ") for x in r) + " |")
 missed = [r for r in rows if r[5]]
-out += ["", f"{len(rows)} confirmed changes (nine rounds: m1-m3, m5-m7, m8-m9, m10-m11, m12-m13, m14-m15, m16-m17, m18-m19, m20-m21); {len(missed)} were missed by the responsible check as it stood when the change arrived and led to the",
+out += ["", f"{len(rows)} confirmed changes (ten rounds: m1-m3, m5-m7, m8-m9, m10-m11, m12-m13, m14-m15, m16-m17, m18-m19, m20-m21, and m22 for ten of the properties); {len(missed)} were missed by the responsible check as it stood when the change arrived and led to the",
         "strengthenings named in the last column (aliased sub-objects in the value generator, late channel creation and dropped callback",
         "channels under connection loss, more function signatures and rewritten modules for remote_exec, pipelined bursts and short socket",
         "reads across transports, terminate against a hanging proxied worker, completion racing with a refused submission, implicit close of",
